@@ -475,6 +475,9 @@ def check_sim(prop, tier, seed, jobs):
         soak_proc = subprocess.Popen([BIN2, "soak", "--max-pow", os.environ.get("VERIF_SOAK_POW") or ("32" if thorough and scale >= 1 else "24")], stdout=subprocess.PIPE, stderr=subprocess.DEVNULL)
         import atexit
         atexit.register(lambda: soak_proc.poll() is None and soak_proc.kill())
+        # 2^8 .. 2^24 (thorough: 2^32) parallel adoptions of one pair, then the pair is orphaned
+        adopt_proc = subprocess.Popen([BIN2, "huge", "--max-pow", "0", "--adopt-pow", os.environ.get("VERIF_ADOPT_POW") or ("32" if thorough and scale >= 1 else "24")], stdout=subprocess.PIPE, stderr=subprocess.DEVNULL)
+        atexit.register(lambda: adopt_proc.poll() is None and adopt_proc.kill())
     viol, stats, samples, ndist, norders, _ = run_batches(prop, seed, total, thorough, jobs)
     known = load_findings()
     mine = [v for v in viol if prop in v.get("props", [])]
@@ -625,6 +628,33 @@ def check_sim(prop, tier, seed, jobs):
             print(f"VIOLATION property={prop} replay={path}")
             return 1
     if soak_proc is not None:
+        try:
+            ao, _ = adopt_proc.communicate(timeout=3600)
+        except subprocess.TimeoutExpired:
+            adopt_proc.kill()
+            ao = b""
+        aj = next((json.loads(l) for l in ao.decode(errors="replace").splitlines() if l.startswith("{")), None)
+        if aj is None and (adopt_proc.returncode or 0) >= 0:
+            eprint(f"HARNESS-ERROR C03: the parallel-adoption process produced no result (code {adopt_proc.returncode})")
+            return 2
+        bad_ad = None
+        if aj is None:
+            bad_ad = f"the process died with signal {-adopt_proc.returncode} while one pair was adopted up to 2^32+3 times and then orphaned"
+        else:
+            coverage["huge_parallel_adoptions"] = {"cases": aj["adopt_cases"], "note": "a <-> b fully recorded, a owning 2^p + 3 handles to b (raw API), each recorded; both outside handles released: the pair must be destroyed"}
+            for c in aj["adopt_cases"]:
+                if c["destroyed"] != 2 or c["count_errors"]:
+                    bad_ad = f"a <-> b with 2^{c['pow']}+3 recorded parallel adoptions a->b: {c['destroyed']} of 2 objects destroyed after the last outside handle was released, {c['count_errors']} wrong counts"
+                    break
+        if bad_ad and not unlisted:
+            os.makedirs(REPLAYS, exist_ok=True)
+            path = os.path.join(REPLAYS, "C03-huge-adoptions.json")
+            with open(path, "w") as f:
+                json.dump({"property": "C03", "engine": "hugeadopt", "kind": "not-collected", "cause": "huge-parallel-adoptions", "adopt_pow": 32 if thorough else 24, "expect": {"msg": bad_ad}}, f, indent=1)
+            write_evidence(prop, tier, seed, LEVEL.get(prop, "exploration"), coverage, time.time() - t0, 1)
+            print(f"violation kind=not-collected cause=huge-parallel-adoptions msg={bad_ad}")
+            print(f"VIOLATION property={prop} replay={path}")
+            return 1
         try:
             so, _ = soak_proc.communicate(timeout=3 * 3600)
         except subprocess.TimeoutExpired:
